@@ -9,7 +9,9 @@ Record obs := mkObs {
   o_ret  : list Z;          (* numbers returned by a maintenance call *)
   o_thr  : list (Z * Z);    (* per goroutine: (0,v) returned v | (1,_) returned the loader's error |
                                (2,_) panicked | (10,_) parked inside its loader | (11,_) blocked in wg.Wait |
-                               (12,_) parked at the schedule point after save's unlock *)
+                               (12,_) parked at the schedule point after save's unlock |
+                             (13,_) a waiter whose awaited loader failed, parked after reportReattempt, before it re-takes
+                             Cache.mu and re-examines payload[key] *)
   o_acct : Z;               (* Cleaner.getSize() *)
   o_live : Z;               (* sum of entry sizes over the payloads of all caches *)
   o_bk   : list nat         (* Cleaner.buckets as cache ids *)
@@ -32,7 +34,8 @@ Definition thr_code (th : thread) : Z * Z :=
   | PLoad _ => (10, 0)
   | PWait _ => (11, 0)
   | PAdd _ _ _ => (12, 0)
-  | _ => (99, 0)
+  | PRetry => (13, 0)
+  | PEnter => (99, 0)
   end.
 
 Definition obs_of (st : state) (r : list Z) : obs :=
@@ -134,6 +137,7 @@ Definition thr_ok (cl : list call) (seen : list bool) (cc : call) (mine : bool) 
   else if code =? 10 then true
   else if code =? 11 then true
   else if code =? 12 then mine && match o with OVal _ _ => true | _ => false end
+  else if code =? 13 then negb mine   (* a waiter before its retry has not run its own loader *)
   else false.
 
 Fixpoint thrs_ok (cl_all : list call) (seen_all : list bool) (cl : list call) (seen : list bool) (l : list (Z * Z)) : bool :=
@@ -149,8 +153,40 @@ Fixpoint nodupb (l : list nat) : bool :=
   | x :: r => negb (memb x r) && nodupb r
   end.
 
+(* one load per key and epoch. An epoch ends with every effective cleaning pass and every Release (the only things
+   that take an entry out of a payload map while its creator is still loading, or after it was saved). Inside an
+   epoch the loads of one (cache, key) are strictly serialised, and after a successful one there is no further load:
+   when a goroutine is first seen inside its loader, every OTHER goroutine of the same cache and key whose loader was
+   seen in this epoch has failed (returned its own error / panicked). Evaluated on the observed statuses only.
+   rows: (goroutine, cache, key, status code, loader seen in this epoch (incl. now), loader first seen now) *)
+Fixpoint zip_rows (i : nat) (cl : list call) (thr : list (Z * Z)) (act new : list bool)
+  : list (nat * nat * nat * Z * bool * bool) :=
+  match cl, thr with
+  | (c, k, _) :: cr, x :: tr =>
+      (i, c, k, fst x, hd false act, hd false new) :: zip_rows (S i) cr tr (tl act) (tl new)
+  | _, _ => []
+  end.
+
+Definition loads_ok (rows : list (nat * nat * nat * Z * bool * bool)) : bool :=
+  forallb (fun rj => let '(j, cj, kj, _, _, nj) := rj in
+    negb nj ||
+    forallb (fun ri => let '(i, ci, ki, code, ai, _) := ri in
+               Nat.eqb i j || negb ai || negb (Nat.eqb ci cj && Nat.eqb ki kj) || (code =? 1) || (code =? 2)) rows) rows.
+
+(* new.(i) = seen'.(i) && not seen.(i);  act.(i) = inep.(i) || new.(i)  (positional, seen/inep may be shorter) *)
+Fixpoint newly (seen seen' : list bool) : list bool :=
+  match seen' with
+  | [] => []
+  | b :: r => (b && negb (hd false seen)) :: newly (tl seen) r
+  end.
+Fixpoint orl (a b : list bool) : list bool :=
+  match b with
+  | [] => []
+  | y :: r => (hd false a || y) :: orl (tl a) r
+  end.
+
 Fixpoint spec_run (strict : bool) (lim : Z) (cl : list call) (evs : list ev) (impl : list obs)
-                  (ncache ncall : nat) (rel : list nat) (seen : list bool) : bool :=
+                  (ncache ncall : nat) (rel : list nat) (seen inep : list bool) : bool :=
   match evs, impl with
   | [], [] => true
   | e :: er, o :: ir =>
@@ -159,8 +195,17 @@ Fixpoint spec_run (strict : bool) (lim : Z) (cl : list call) (evs : list ev) (im
       let rel' := match e with ERelease c => c :: rel | _ => rel end in
       (* the loaders of a fill all run (fresh keys; the harness checks it) *)
       let seen' := mark_seen (seen ++ match e with EFill fresh _ _ n _ _ => repeat fresh n | _ => [] end) (o_thr o) in
+      let new := newly seen seen' in
+      let act := orl inep new in
+      let inep' := match e, o_ret o with
+                   | ECleanup, 1 :: _ | ECleanupNew, 1 :: _ => []
+                   | ERelease _, _ => []
+                   | _, _ => act
+                   end in
       (* coherence *)
       Nat.eqb (length (o_thr o)) ncall' && thrs_ok cl seen' cl seen' (o_thr o) &&
+      (* single flight: one load per key and epoch *)
+      loads_ok (zip_rows 0%nat cl (o_thr o) act new) &&
       (* accounting: the size the cleaner accounts = sum of live entries (also while savers are parked at
          the schedule point after save's unlock, and while creators are inside their loaders) *)
       (negb strict || (o_acct o =? o_live o)) &&
@@ -172,7 +217,7 @@ Fixpoint spec_run (strict : bool) (lim : Z) (cl : list call) (evs : list ev) (im
       | ECleanup, 1 :: _ | ECleanupNew, 1 :: _ => (o_acct o <=? lim) && (negb strict || (o_live o <=? lim))
       | _, _ => true
       end &&
-      spec_run strict lim cl er ir ncache' ncall' rel' seen'
+      spec_run strict lim cl er ir ncache' ncall' rel' seen' inep'
   | _, _ => false
   end.
 
@@ -183,7 +228,7 @@ Definition case_spec_ok (c : case) : bool :=
       (* at the end (nothing in flight): the current generation of every cache that was not released is the
          cleaner's last generation *)
       forallb (fun s => s_rel s || (s_cur s =? Z.of_nat (length gsizes) - 1)) snaps &&
-      spec_run strict lim (calls_of evs) evs impl 0%nat 0%nat [] []
+      spec_run strict lim (calls_of evs) evs impl 0%nat 0%nat [] [] []
   end.
 
 Definition diff_indices (l : list case) : list nat := bad_indices (fun c => negb (case_agrees c)) l.
